@@ -1048,8 +1048,9 @@ impl<'a> Runner<'a> {
                     };
                 }
             }
-            // any start state, simplest first (a pattern that needs a pre-existing row shows up with rows12)
-            for &start in STARTS.iter() {
+            // start states empty / rows 1,2 (and the script's own), simplest first: a pattern that needs a
+            // pre-existing row shows up with rows12
+            for &start in STARTS.iter().filter(|s| **s != Start::Rows123 || sc.start == Start::Rows123) {
                 if !valid(sc.table, start, &ops, strict) {
                     continue;
                 }
